@@ -47,6 +47,13 @@ CHECKS = {
                      "checks the statement's consequences on Layout.Expected and emits the table; the harness presses every point on the real engine and "
                      "compares text, emptiness and session flag (exhaustive: true)",
                 note="key-name -> layout-entry naming convention (bin/gen.py) transcribed from riti.h names; two layout files; TLC JSON modules, harness executor trusted"),
+    "C11": dict(category=MC, design_ref="DESIGN.md 5 C11",
+                technique="TLC model checking of UpdatedEquivFresh on the memo/stamp model + paired replay: updated context vs context created fresh at the update point",
+                text="TLC enumerates typing / auto-correct-file edits / update-engine / typing histories over 4 (quick) or 7 (thorough) configurations, checks the invariant on "
+                     "the model (it finds the stale-memo counterexample on the pinned transcript in 4 steps) and emits every maximal history; the harness replays each with "
+                     "explicit file mtimes against a brand-new context created with the new configuration over the same files; MC_Session histories add updates in the middle "
+                     "of arbitrary event sequences",
+                note="edits = content change with newer mtime; bounded number of edits/words; TLC, harness executor trusted"),
     "C12": dict(category=MC, design_ref="DESIGN.md 5 C12",
                 technique="TLC bounded model checking of FixedCompose (PropKeySet) + replay of every TLC behaviour through the real engine",
                 text="TLC enumerates all key/backspace histories to depth 3 (quick) / 4 (thorough) over a class alphabet x 16 helper settings, checks the "
